@@ -1531,7 +1531,7 @@ class FlowIR(object):
                     update_refs.append(extra_ref)
                 for ref in update_refs:
                     # VV: only match whole references (e.g. `A:ref` must not match inside `BA:ref`)
-                    expression = re.compile(r"(?<![\w.#/-])%s(?![\w])((?:/[\w.*]+)+,*)?" % re.escape(ref))
+                    expression = re.compile(r"(?<![\w.#/-])%s(?![\w])((?:/[\w.*-]+)+,*)?" % re.escape(ref))
                     def expand(m, ref=ref):
                         # Check if we have a path after this occurrence of the reference
                         path = m.group(1)
